@@ -258,7 +258,7 @@ class World20:
         comm.create_comm = lambda *a, **k: CapturingComm(*a, **k)
         a = self.cfg['algebra']
         self.alg = Algebra(a['p'], a['q'], a['r'])
-        self.canon = list(self.alg.canon2bin.values())
+        self.canon = ref_tables(a['p'], a['q'], a['r'])[1]       # canonical blade order from the independent reference
         self.cidx = {k: i for i, k in enumerate(self.canon)}
         # scene multivectors
         self.mvs = []
@@ -295,8 +295,8 @@ class World20:
                 mv = self.alg.multivector(values=vals)          # dense canonical: keys are chosen by kingdon
             self.mvs.append(mv)
             self.model.append(ref)
-        self.containers = [mv._values for mv in self.mvs]
-        self.keys0 = [tuple(mv._keys) for mv in self.mvs]
+        self.containers = [mv.values() for mv in self.mvs]
+        self.keys0 = [tuple(mv.keys()) for mv in self.mvs]
         subjects = [self.build_node(n) for n in self.cfg['scene']]
         opts = dict(self.cfg.get('options', {}))
         if 'camera' in opts:
@@ -454,16 +454,16 @@ class World20:
             return
         # W3: original objects, original containers, exactly the model's coefficients
         for i, mv in enumerate(self.mvs):
-            if mv._values is not self.containers[i]:
+            if mv.values() is not self.containers[i]:
                 self.violate('W3-not-in-place', where=where, mv=i, expected='same coefficient container object',
                              got='the multivector holds another container')
                 return
-            if tuple(mv._keys) != self.keys0[i]:
-                self.violate('W3-keys-changed', where=where, mv=i, expected=self.keys0[i], got=tuple(mv._keys))
+            if tuple(mv.keys()) != self.keys0[i]:
+                self.violate('W3-keys-changed', where=where, mv=i, expected=self.keys0[i], got=tuple(mv.keys()))
                 return
             ref = self.model[i]
-            for j, k in enumerate(mv._keys):
-                got = mv._values[j]
+            for j, k in enumerate(mv.keys()):
+                got = mv.values()[j]
                 exp = ref[k]
                 if not _num_eq(got, exp):
                     self.violate('W3-coefficients', where=where, mv=i, blade=k, expected=_show(exp), got=_show(got))
